@@ -26,9 +26,11 @@ MANIFEST = dict(
          "bookkeeping of scan.c (model of _yr_scan_verify_chained_string_match) never confirms a wrong pair (chain_sound, any arrival order) and confirms every legal pair of a "
          "two-piece chain under the hypotheses H1-H3 (chain_exact_partial, chain_matches_spec_partial: H1 = a later tail candidate starts at most YR_RE_SCAN_LIMIT + YR_MAX_ATOM_LENGTH "
          "bytes before an earlier one, which the real candidate stream satisfies since fix 81c4ffe widened the pruning window (former finding F13), H2 = one "
-         "length per head offset is what finding C02-chain-single-length violates); the bytecode VM model (yr_re_exec) is sound on the code of the emit model for the WHOLE hex "
-         "fragment - bytes, masks, negations, jumps, nested alternatives - in forward direction (vm_sound_partial). NOT proved: VM soundness for backward code and for the fast "
-         "matcher yr_re_fast_exec, VM completeness, chains of more than two pieces, atom extraction and Aho-Corasick. That gap is covered by SAMPLING on every run: generated patterns x buffers through the real engine vs. the compiled Lean specification "
+         "length per head offset is what finding C02-chain-single-length violates); the bytecode VM model (yr_re_exec) is sound on the code of the emit model for EVERY hex "
+         "AST (HexAst: bytes, ??, nibble masks, ~ negations, jumps, alternatives nested to any depth - no fragment restriction; code below the emitter's int16 jump range) "
+         "all buffers, start positions and flags, for the forward code (vm_sound) and for the backward code run with RE_FLAGS_BACKWARDS (vm_sound_backward: every reported "
+         "length L has L <= start and the pattern matches buf[start-L, start)) - the hex instances of the theorems for all well-formed expressions of Thm/C03. NOT proved: VM soundness for the fast "
+         "matcher yr_re_fast_exec and for runs entering the code at an atom's instruction, VM completeness, chains of more than two pieces, atom extraction and Aho-Corasick. That gap is covered by SAMPLING on every run: generated patterns x buffers through the real engine vs. the compiled Lean specification "
          "(complete match lists, both directions of the iff), the parser AST tie, the real bytecode through the C VM and the Lean VM model (exact agreement incl. callback "
          "order), the whole-pattern code run exhaustively vs. the specification, and the Lean emit model vs. the bytes yr_re_ast_emit_code writes.",
     design_ref="DESIGN.md §4 D6/D7, §5 C02",
@@ -285,7 +287,7 @@ def inst(r, seq, hot, bad=False):
         elif k == "a":
             out.append(r.choice(FILL + hot))
         elif k == "m":
-            c = it[1] | (r.randint(0, 255) & ~it[2] & 0xFF)
+            c = it[1] | (r.choice([0x00, 0xFF, r.randint(0, 255)]) & ~it[2] & 0xFF)      # the boundary nibbles 0 / F come up often
             out.append((c ^ (0x11 if sp else 0)) & 0xFF)
         elif k == "n":
             c = it[1] if sp else r.choice([x for x in FILL + hot + [it[1] ^ 1] if x != it[1]])
@@ -367,9 +369,81 @@ def rule_text(pat):
     return "rule r { strings: $a = { %s } condition: #a >= 0 }" % pat
 
 
+WINDOW = 1024 + 4          # YR_RE_SCAN_LIMIT + YR_MAX_ATOM_LENGTH: the slack of the chain pruning in scan.c
+
+
+def gen_chain_decoy(r):
+    """a chain of 3-4 fixed pieces `H [a-b] M [c-d | c-] T` with a BOUNDED first jump above the chaining threshold, and a
+    buffer of several KB with the genuine occurrences plus DECOY occurrences of the non-head pieces below / at / beyond the
+    pruning window (gap_max + YR_RE_SCAN_LIMIT + YR_MAX_ATOM_LENGTH behind the head), before and after the genuine ones
+    (scan.c prunes unconfirmed matches of the previous piece against the lowest unconfirmed offset of the current one)"""
+    bytes_pool = r.sample([0x11, 0x22, 0x33, 0x44, 0x55, 0x66, 0x77, 0x88, 0x99, 0xAB, 0xCD, 0xEF, 0x12, 0x34, 0x56, 0x78], 16)
+    def piece():
+        n = r.choice([2, 3, 4])
+        return [("b", bytes_pool.pop()) for _ in range(n)]
+    npieces = r.choice([3, 3, 3, 4])
+    ps = [piece() for _ in range(npieces)]
+    jumps = []
+    for i in range(npieces - 1):
+        if i == 0 or r.random() < 0.4:
+            lo = r.choice([0, 0, 5, 201, 300])
+            hi = max(lo, r.choice([201, 250, 300, 300, 400]))
+            jumps.append(("j", lo, hi, "nm"))
+        elif r.random() < 0.5:
+            lo = r.choice([0, 201, 300])
+            jumps.append(("j", lo, r.choice([3000, 5000]), "nm"))
+        else:
+            jumps.append(("j", r.choice([0, 201, 300]), None, "n-"))
+    seq = []
+    for i, p in enumerate(ps):
+        seq += p
+        if i < len(jumps):
+            seq.append(jumps[i])
+    fill = lambda n: bytes(r.choice([0x00, 0x37, 0x38, 0xF0]) for _ in range(n))
+    raw = lambda p: bytes(t[1] for t in p)
+    buf = bytearray(fill(r.choice([0, 0, 3, 20])))
+    ends = []                                       # end offset of the genuine occurrence of every piece
+    for i, p in enumerate(ps):
+        if i > 0:
+            lo, hi = jumps[i - 1][1], jumps[i - 1][2]
+            gmax = hi if hi is not None else lo + 400
+            # decoys of THIS piece: before the genuine one is too early to matter, so they go after it (below)
+            if i == 1:
+                g = r.choice([lo, gmax, (lo + gmax) // 2, min(gmax, lo + 10)])
+            elif hi is None:
+                g = r.choice([lo, lo + 1500, lo + 2500, lo + 3500, lo + 1800])
+            else:
+                g = r.choice([lo, min(gmax, 2500), min(gmax, lo + 1500), gmax if gmax < 4000 else 3000])
+            # decoys of the PREVIOUS piece inside this gap, measured from the end of the piece before it
+            if i >= 2 and g > 40:
+                plo, phi = jumps[i - 2][1], jumps[i - 2][2]
+                pmax = phi if phi is not None else plo + 400
+                base = ends[i - 2]
+                gap = bytearray(fill(g))
+                for _ in range(r.choice([1, 1, 2])):
+                    d = r.choice([pmax + WINDOW - 2, pmax + WINDOW, pmax + WINDOW + 1, pmax + WINDOW + 2, pmax + WINDOW + 60, pmax + 500, pmax + 2 * WINDOW])
+                    o = base + d - len(buf)              # offset inside the gap
+                    pr = raw(ps[i - 1])
+                    if 0 <= o and o + len(pr) + 2 <= len(gap):
+                        gap[o:o + len(pr)] = pr
+                buf += gap
+            else:
+                buf += fill(g)
+        buf += raw(p)
+        ends.append(len(buf))
+    # trailing decoys of the tail and of the middle pieces
+    for _ in range(r.choice([0, 1, 2])):
+        buf += fill(r.choice([1, 50, 300, WINDOW + 301])) + raw(r.choice(ps[1:]))
+    buf += fill(r.choice([0, 2]))
+    return seq, bytes(buf[:9000])
+
+
 def gen_case(r, cid):
-    seq = gen_pattern(r)
-    buf = gen_buffer(r, seq)
+    if r.random() < 0.07:
+        seq, buf = gen_chain_decoy(r)
+    else:
+        seq = gen_pattern(r)
+        buf = gen_buffer(r, seq)
     ast = rc.norm(seq_ast(seq))
     text = seq_text(seq)
     ps, gaps = pieces(seq)
@@ -386,6 +460,9 @@ CORPUS = [
     ("01 02 [201] 03 04", bytes([1, 2]) + b"\x41" * 200 + bytes([3, 4])),
     ("01 02 [200-] 03 04", bytes([1, 2]) + b"\x41" * 200 + bytes([3, 4, 3, 4])),
     ("01 02 [-] 03 04 [2-201] 05", bytes([1, 2, 1, 2, 3, 4]) + b"\x05" * 3 + b"\0" * 199 + b"\x05"),
+    # three pieces, a decoy of the middle piece beyond the pruning window behind the head, before the tail
+    ("A1 A2 A3 [0-300] B1 B2 B3 [0-5000] C1 C2 C3", bytes([0xA1, 0xA2, 0xA3]) + b"\0" * 7 + bytes([0xB1, 0xB2, 0xB3]) + b"\0" * 1987 + bytes([0xB1, 0xB2, 0xB3]) + b"\0" * 997 + bytes([0xC1, 0xC2, 0xC3]) + b"\0"),
+    ("A1 A2 A3 [0-300] B1 B2 B3 [300-] C1 C2 C3", bytes([0xA1, 0xA2, 0xA3]) + b"\0" * 7 + bytes([0xB1, 0xB2, 0xB3]) + b"\0" * 1987 + bytes([0xB1, 0xB2, 0xB3]) + b"\0" * 997 + bytes([0xC1, 0xC2, 0xC3]) + b"\0"),
     # the best atom window is interior and begins with a wildcard (atoms.c window shift)
     ("10 ?? 41 42 43 ?? 20 30", b"\x00\x00\x00\x00" + bytes([0x10, 0x99, 0x41, 0x42, 0x43, 0x77, 0x20, 0x30]) + b"\x00"),
     ("1? ?? 41 42 43 ?? 2?", b"\x00\x00\x00\x00" + bytes([0x1A, 0x99, 0x41, 0x42, 0x43, 0x77, 0x2B]) + b"\x41\x42\x43"),
